@@ -104,6 +104,15 @@ def unionTyped : GoType → Bool
   | .ptr e => !e.collChain
   | _ => false
 
+/-- the element type is `byte` itself -/
+def isU8 : GoType → Bool
+  | .uint 8 => true
+  | _ => false
+
+def isStr : GoType → Bool
+  | .string => true
+  | _ => false
+
 /-- `buildUnionCodec` for `["null", s]` around the codec of `s` -/
 def wrapU : Codec → Codec
   | .string o => .unionNullString o 1
@@ -137,9 +146,9 @@ def bareCodec : Nat → GoType → Bool → Option Codec
     | .float64 => some (.double oe)
     | .string => some (.string oe)
     | .slice e =>
-      if e matches .uint 8 then some (.bytes oe)
+      if isU8 e then some (.bytes oe)
       else (fieldCodec n e false).map (.array · oe)
-    | .map k v => if k matches .string then (fieldCodec n v false).map (.map · oe) else none
+    | .map k v => if isStr k then (fieldCodec n v false).map (.map · oe) else none
     | .ptr e => (bareCodec n e false).map .pointer
     | .struct _ _ fs =>
       if structOk fs then
@@ -203,8 +212,8 @@ def Typed : Nat → GoType → GoVal → Prop
     | .float32, .f32 b => ¬ SNaN32 b
     | .float64, .f64 _ => True
     | .string, .str _ => True
-    | .slice e, .bytes _ => (e matches .uint 8) = true
-    | .slice e, .slice items => (e matches .uint 8) = false ∧ ∀ x ∈ items, Typed n e x
+    | .slice e, .bytes _ => isU8 e = true
+    | .slice e, .slice items => isU8 e = false ∧ ∀ x ∈ items, Typed n e x
     | .map _ v, .map _ ks vs => ks.length = vs.length ∧ ∀ x ∈ vs, Typed n v x
     | .ptr _, .ptr none => True
     | .ptr e, .ptr (some x) => Typed n e x
@@ -212,5 +221,184 @@ def Typed : Nat → GoType → GoVal → Prop
     | .time, .time t => t.Printable
     | .nullT k, .nullw _ inner => nullInnerTyped k inner
     | _, _ => False
+
+/-! ### the pointer clause of `normSpecD` -/
+
+def ptrClause (dev : Nat) (e : GoType) (x' x : GoVal) : GoVal :=
+  match e.strip, x', x with
+  | .ptr _, .ptr none, _ => if dev / 2 % 2 == 1 && !e.collChain then .ptr none else .ptr (some x')
+  | .nullT _, _, .nullw false p => if dev % 2 == 1 then .ptr (some (.nullw true p)) else .ptr (some x')
+  | .time, _, _ => .ptr (some x)
+  | _, _, _ => .ptr (some x')
+
+theorem normSpecD_ptr_some (d n : Nat) (e : GoType) (oe : Bool) (x : GoVal) :
+    normSpecD d (n + 1) (.ptr e) oe (.ptr (some x)) = ptrClause d e (normSpecD d n e false x) x := by
+  simp only [normSpecD, GoType.strip, ptrClause]
+  rfl
+
+theorem normSpecD_ptr_none (d n : Nat) (e : GoType) (oe : Bool) :
+    normSpecD d (n + 1) (.ptr e) oe (.ptr none) = if e.collChain then .ptr (some e.emptyChain) else .ptr none := by
+  simp only [normSpecD, GoType.strip]
+
+/-- what the pointer clause puts behind the pointer: the D27 adjustment (an invalid wrapper behind a
+pointer comes back valid, with its payload) and times behind a pointer as they are -/
+def adj (e : GoType) (x' x : GoVal) : GoVal :=
+  match e, x with
+  | .nullT _, .nullw false p => .nullw true p
+  | .time, x => x
+  | _, _ => x'
+
+theorem ptrClause_ptr_ne (d : Nat) (e2 : GoType) (x' x : GoVal) (h : x' ≠ .ptr none) :
+    ptrClause d (.ptr e2) x' x = .ptr (some x') := by
+  unfold ptrClause
+  simp only [GoType.strip]
+  split
+  all_goals first | rfl | (exact absurd rfl h) | (rename_i heq; cases heq) | (rename_i heq _; cases heq)
+
+theorem ptrClause_ptr_nil (e2 : GoType) (x : GoVal) :
+    ptrClause 7 (.ptr e2) (.ptr none) x
+      = if (GoType.ptr e2).collChain then .ptr (some (.ptr none)) else .ptr none := by
+  unfold ptrClause
+  simp only [GoType.strip]
+  cases (GoType.ptr e2).collChain <;> simp
+
+/-! ### facts about the codec of a type -/
+
+theorem bareCodec_strip {N : Nat} {e : GoType} {oe : Bool} {c : Codec} (h : bareCodec N e oe = some c) :
+    e.strip = e := by
+  cases N with
+  | zero => simp [bareCodec] at h
+  | succ N => cases e <;> simp [bareCodec] at h <;> rfl
+
+theorem fieldCodec_bare {N : Nat} {T : GoType} {oe : Bool} {c : Codec} (h : fieldCodec N T oe = some c) :
+    ∃ n oe' cb, N = n + 1 ∧ bareCodec n T oe' = some cb := by
+  cases N with
+  | zero => simp [fieldCodec] at h
+  | succ n =>
+    simp only [fieldCodec] at h
+    split at h
+    · simp only [Option.map_eq_some_iff] at h
+      obtain ⟨cb, hcb, -⟩ := h
+      exact ⟨n, oe, cb, rfl, hcb⟩
+    · split at h
+      · simp only [Option.map_eq_some_iff] at h
+        obtain ⟨cb, hcb, -⟩ := h
+        exact ⟨n, true, cb, rfl, hcb⟩
+      · exact ⟨n, false, c, rfl, h⟩
+
+theorem fieldCodec_strip {N : Nat} {e : GoType} {oe : Bool} {c : Codec} (h : fieldCodec N e oe = some c) :
+    e.strip = e := by
+  obtain ⟨n, oe', cb, -, hb⟩ := fieldCodec_bare h
+  exact bareCodec_strip hb
+
+theorem ptrClause_emptyChain (d : Nat) (e : GoType) (x : GoVal) (h : e.collChain = true) :
+    ptrClause d e e.emptyChain x = .ptr (some e.emptyChain) := by
+  cases e <;> simp [GoType.collChain] at h <;> simp [ptrClause, GoType.strip, GoType.emptyChain]
+
+def IsColl (c : Codec) : Prop := (∃ i o, Codec.stripPtr c = .array i o) ∨ (∃ v o, Codec.stripPtr c = .map v o)
+
+theorem bareCodec_slice (n : Nat) (e : GoType) (oe : Bool) :
+    bareCodec (n + 1) (.slice e) oe = if isU8 e then some (.bytes oe) else (fieldCodec n e false).map (.array · oe) := by
+  simp only [bareCodec]
+theorem bareCodec_map (n : Nat) (k v : GoType) (oe : Bool) :
+    bareCodec (n + 1) (.map k v) oe = if isStr k then (fieldCodec n v false).map (.map · oe) else none := by
+  simp only [bareCodec]
+theorem bareCodec_ptr (n : Nat) (e : GoType) (oe : Bool) :
+    bareCodec (n + 1) (.ptr e) oe = (bareCodec n e false).map .pointer := by
+  simp only [bareCodec]
+theorem bareCodec_struct (n : Nat) (nm pkg : String) (fs : List GoField) (oe : Bool) :
+    bareCodec (n + 1) (.struct nm pkg fs) oe =
+      if structOk fs then
+        (allSome (fs.map fun f => fieldCodec n f.type (omitEmptyTag f.jsonTag))).map fun cs =>
+          .record (zeroFields fs) cs ((List.range fs.length).map some)
+      else none := by
+  simp only [bareCodec]
+
+theorem matches_u8 (e : GoType) : (e matches .uint 8) = isU8 e := by
+  unfold isU8; rfl
+
+theorem isU8_uint (w : Nat) : isU8 (.uint w) = decide (w = 8) := by
+  simp only [isU8]
+  by_cases h : w = 8
+  · subst h; rfl
+  · simp [h]
+
+theorem isU8_eq {e : GoType} (h : isU8 e = true) : e = .uint 8 := by
+  cases e <;> try (simp [isU8] at h; done)
+  rename_i w
+  rw [isU8_uint] at h
+  simp at h
+  subst h; rfl
+
+theorem collChain_slice (e : GoType) : (GoType.slice e).collChain = !isU8 e.strip := by
+  simp only [GoType.collChain]; unfold isU8; rfl
+
+theorem not_u8_strip {e : GoType} (h : isU8 e = false) (hs : e.strip = e) : (e.strip matches .uint 8) = false := by
+  rw [hs, matches_u8, h]
+
+/-- a type is a pointer chain to a slice or map exactly when its codec is a pointer chain to an array
+or map codec; the codec's `nilForm` is then the type's `emptyChain` up to the nil flag of maps -/
+theorem bareCodec_coll : ∀ (N : Nat) (e : GoType) (oe : Bool) (c : Codec), bareCodec N e oe = some c →
+    (e.collChain = true → IsColl c ∧ ∀ n', N ≤ n' → normSpecD 0 n' e false (nilForm c) = e.emptyChain) ∧
+    (e.collChain = false → ¬ IsColl c) := by
+  intro N
+  induction N with
+  | zero => intro e oe c h; simp [bareCodec] at h
+  | succ N ih =>
+    intro e oe c h
+    cases e
+    case slice e' =>
+      rw [bareCodec_slice] at h
+      by_cases hb : isU8 e' = true
+      · simp only [hb, if_true, Option.some.injEq] at h; subst h
+        have := isU8_eq hb
+        subst this
+        simp [GoType.collChain, GoType.strip, IsColl, Codec.stripPtr]
+      · simp only [hb, if_false, Option.map_eq_some_iff, Bool.false_eq_true] at h
+        obtain ⟨ci, hci, rfl⟩ := h
+        have hs := fieldCodec_strip hci
+        have hcc : (GoType.slice e').collChain = true := by
+          rw [collChain_slice, hs]
+          simpa using hb
+        refine ⟨fun _ => ⟨Or.inl ⟨ci, oe, rfl⟩, ?_⟩, fun hf => by rw [hcc] at hf; contradiction⟩
+        intro n' hn'
+        obtain ⟨k, rfl⟩ : ∃ k, n' = k + 1 := ⟨n' - 1, by omega⟩
+        simp [nilForm, normSpecD, GoType.strip, GoType.emptyChain]
+    case map k v =>
+      rw [bareCodec_map] at h
+      by_cases hb : isStr k = true
+      · simp only [hb, if_true, Option.map_eq_some_iff] at h
+        obtain ⟨ci, hci, rfl⟩ := h
+        refine ⟨fun _ => ⟨Or.inr ⟨ci, oe, rfl⟩, ?_⟩, fun hf => by simp [GoType.collChain] at hf⟩
+        intro n' hn'
+        obtain ⟨k, rfl⟩ : ∃ k, n' = k + 1 := ⟨n' - 1, by omega⟩
+        simp [nilForm, normSpecD, GoType.strip, GoType.emptyChain]
+      · simp [hb] at h
+    case ptr e' =>
+      rw [bareCodec_ptr] at h
+      simp only [Option.map_eq_some_iff] at h
+      obtain ⟨c', hc', rfl⟩ := h
+      obtain ⟨h1, h2⟩ := ih e' false c' hc'
+      refine ⟨fun hcc => ?_, fun hcc => ?_⟩
+      · simp only [GoType.collChain] at hcc
+        obtain ⟨h3, h4⟩ := h1 hcc
+        refine ⟨by simpa [IsColl, Codec.stripPtr] using h3, ?_⟩
+        intro n' hn'
+        obtain ⟨k, rfl⟩ : ∃ k, n' = k + 1 := ⟨n' - 1, by omega⟩
+        rw [nilForm, normSpecD_ptr_some, h4 k (by omega), ptrClause_emptyChain _ _ _ hcc]
+        rfl
+      · simp only [GoType.collChain] at hcc
+        simpa [IsColl, Codec.stripPtr] using h2 hcc
+    case struct nm pkg fs =>
+      rw [bareCodec_struct] at h
+      split at h
+      · simp only [Option.map_eq_some_iff] at h
+        obtain ⟨cs, -, rfl⟩ := h
+        exact ⟨fun hf => by simp [GoType.collChain] at hf, fun _ => by simp [IsColl, Codec.stripPtr]⟩
+      · contradiction
+    all_goals (simp only [bareCodec] at h; try contradiction)
+    all_goals try (split at h <;> try contradiction)
+    all_goals (simp only [Option.some.injEq] at h; subst h)
+    all_goals (refine ⟨fun hf => by simp [GoType.collChain] at hf, fun _ => by simp [IsColl, Codec.stripPtr]⟩)
 
 end Avro
